@@ -19,43 +19,42 @@ fn arg(args: &[String], name: &str) -> Option<String> {
     args.iter().position(|a| a == name).and_then(|i| args.get(i + 1).cloned())
 }
 
-fn strip_prompts(line: &str) -> &str {
-    let mut l = line;
-    while let Some(r) = l.strip_prefix("> ") {
-        l = r;
-    }
-    l
+/// the part of a transcript line that starts at a marker, wherever the prompt left the cursor
+fn after<'a>(line: &'a str, marker: &str) -> Option<&'a str> {
+    line.find(marker).map(|p| &line[p + marker.len()..])
 }
 
-/// transcript -> events named by the properties
+/// transcript -> events named by the properties.  Only the markers are relied upon ("current stack: ",
+/// "stack N: [..]", "[stdout] ", "[stderr] "); prompts and every other line are skipped.
 fn transcript_events(stdout: &str) -> Vec<Value> {
     let mut evs: Vec<Value> = Vec::new();
     let mut cur_state: Option<(i64, Vec<Value>)> = None;
-    for raw in stdout.split('\n') {
-        let line = strip_prompts(raw);
-        if let Some(rest) = line.strip_prefix("stack ") {
-            if let Some((idx, vals)) = rest.split_once(": [") {
-                if let (Ok(i), Some(body), Some(st)) = (idx.parse::<i64>(), vals.strip_suffix(']'), cur_state.as_mut()) {
-                    if !body.is_empty() {
-                        let texts: Vec<Value> = body.split(", ").map(|t| json!(text_cps(t))).collect();
-                        st.1.push(json!([i, texts]));
+    for line in stdout.split('\n') {
+        if cur_state.is_some() {
+            if let Some(rest) = line.strip_prefix("stack ") {
+                if let Some((idx, vals)) = rest.split_once(": [") {
+                    if let (Ok(i), Some(body), Some(st)) = (idx.parse::<i64>(), vals.strip_suffix(']'), cur_state.as_mut()) {
+                        if !body.is_empty() {
+                            let texts: Vec<Value> = body.split(", ").map(|t| json!(text_cps(t))).collect();
+                            st.1.push(json!([i, texts]));
+                        }
+                        continue;
                     }
-                    continue;
                 }
             }
         }
         if let Some((cur, st)) = cur_state.take() {
             evs.push(json!({"t":"state","cur":cur,"st":st}));
         }
-        if let Some(n) = line.strip_prefix("current stack: ") {
+        if let Some(n) = after(line, "current stack: ") {
             if let Ok(c) = n.trim().parse::<i64>() {
                 cur_state = Some((c, Vec::new()));
                 continue;
             }
         }
-        if let Some(t) = line.strip_prefix("[stdout] ") {
+        if let Some(t) = after(line, "[stdout] ") {
             evs.push(json!({"t":"out","text":text_cps(t)}));
-        } else if let Some(t) = line.strip_prefix("[stderr] ") {
+        } else if let Some(t) = after(line, "[stderr] ") {
             evs.push(json!({"t":"err","text":text_cps(t)}));
         }
     }
